@@ -55,6 +55,7 @@ def find_match(n, min_arms):
 
 LOCAL_FNS = {}
 _INLINING = []
+_BIND = []
 
 
 def walk_nodes(n):
@@ -88,6 +89,16 @@ def events(n, out):
             out.append(("bind", [a.strip() for a in n["args"][1:]], nm))
             return
         if nm in ("write", "writeln"):
+            if _BIND and n.get("fmt"):
+                # inside an inlined helper: a placeholder filled with a parameter that the call site binds to a string literal
+                # (`serialize_color_operands(args, "SCN", f)` ... `writeln!(f, "{}", operator)`) is that literal
+                sub = {}
+                rest = [a.strip() for a in n["args"]]       # the arguments after the format string
+                for i, a_ in enumerate(rest):
+                    if a_ in _BIND[-1]:
+                        sub[i] = _BIND[-1][a_]
+                if sub:
+                    n = dict(n, subst=sub)
             out.append(("write", n))
             return
         if nm in ("bail", "err", "unimplemented"):
@@ -117,10 +128,17 @@ def events(n, out):
         # a private helper of the same file (e.g. the operand loop shared by two arms): its events happen here
         if fn in LOCAL_FNS and fn not in _INLINING and len(_INLINING) < 3:
             _INLINING.append(fn)
+            bind = {}
+            for prm, arg in zip(LOCAL_FNS[fn].get("params") or [], n["args"]):
+                mm = re.match(r'^\s*"((?:[^"\\]|\\.)*)"\s*$', arg)
+                if mm and ":" in prm:
+                    bind[prm.split(":")[0].strip()] = mm.group(1)
+            _BIND.append(bind)
             try:
                 events(LOCAL_FNS[fn]["body"], out)
             finally:
                 _INLINING.pop()
+                _BIND.pop()
         return
     if k == "mcall":
         recv = norm(n["recv"])
@@ -386,7 +404,11 @@ def keyword_of(row, a, f):
             types = a.join.display_types("pdf/src/content.rs", n["line"], n["col"])
             ti = 0
             for part in re.split(r"(\{[^{}]*\})", fmt):
-                if part.startswith("{"):
+                if part.startswith("{") and ti in (n.get("subst") or {}):
+                    for w in [w for w in re.split(r"[\s\[\]]+", n["subst"][ti]) if w]:
+                        kw = w
+                    ti += 1
+                elif part.startswith("{"):
                     if ti < len(types):
                         ty = types[ti][1].strip()
                         kinds += DISPLAY_KINDS.get(ty, DISPLAY_KINDS.get(ty.lstrip("&"), ["?:" + ty]))
